@@ -3,7 +3,7 @@ import copy
 
 from .. import streams as st
 from ..common import scm_str
-from ..engine import Outcome, Verdict, crash_verdicts, infra_problem, shrink_list
+from ..engine import loss_shape, Outcome, Verdict, crash_verdicts, infra_problem, shrink_list
 
 ID = "C12"
 RULE = ("case = history (<= 40 operations over <= 4 strings mixing 1/2/3/4-byte scalars: string-set! with every old-width x new-width at "
@@ -314,7 +314,7 @@ def execute(case, run):
                     V.append(Verdict("sink-mismatch", "op %d: sink %s received %r, the model's UTF-8 is %r (well-formed: %s)"
                                      % (i, o["stream"], sink[:80], want[:80], wellformed(sink)),
                                      {"kind": case["streams"][o["stream"]]["kind"],
-                                      "shape": "prefix" if want.startswith(sink) else "other",
+                                      "shape": loss_shape(want, sink),
                                       "backpressure": bool(sres.get("shorts", 0) or sres.get("blocks", 0))}))
                     break
             if o.get("wchange"):
